@@ -36,8 +36,9 @@ VARIANTS = {
              "-fsanitize-trap=undefined", "-fno-sanitize-recover=all", "-D_GLIBCXX_SANITIZE_VECTOR"],
     "ubsan": ["-O1", "-g", "-fsanitize=undefined", "-fsanitize-trap=undefined"],
     "tsan": ["-O1", "-g", "-fsanitize=thread"],
-    "pat": ["-O1", "-ftrivial-auto-var-init=pattern"],
-    "zero": ["-O1", "-ftrivial-auto-var-init=zero",
+    # (asserts are exercised by the asan build; here only the outcome under different pre-fills matters)
+    "pat": ["-O1", "-DNDEBUG", "-ftrivial-auto-var-init=pattern"],
+    "zero": ["-O1", "-DNDEBUG", "-ftrivial-auto-var-init=zero",
              "-enable-trivial-auto-var-init-zero-knowing-it-will-be-removed-from-clang"],
     "plain": ["-O2"],
 }
@@ -87,7 +88,8 @@ def build_lib(variant, guard=True):
     """Compile the library sources of /repo's working tree with the variant's flags.
     Returns the build dir (contains libcctz.a)."""
     flags = VARIANTS[variant]
-    key = "%s-%s%s" % (variant, repo_hash(), "" if guard else "-noguard")
+    fh = hashlib.sha1(" ".join(flags).encode()).hexdigest()[:6]
+    key = "%s-%s-%s%s" % (variant, fh, repo_hash(), "" if guard else "-noguard")
     out = os.path.join(BUILD, key)
     lib = os.path.join(out, "libcctz.a")
     if os.path.exists(lib):
